@@ -610,7 +610,7 @@ func c15seq(c *wk.Ctx) {
 			c.Sample(map[string]interface{}{"stream": stream, "sequence": symbols, "trace": trace})
 		}
 	}
-	c.Cases("seq", c.Pick(1500, 60000), func(i int, rng *rand.Rand) {
+	c.Cases("seq", c.Pick(3000, 60000), func(i int, rng *rand.Rand) {
 		l := 1 + rng.Intn(8)
 		symbols := make([]string, l)
 		for k := range symbols {
@@ -652,7 +652,7 @@ var c15model = porcupine.Model{
 }
 
 func c15conc(c *wk.Ctx) {
-	c.Cases("conc", c.Pick(250, 20000), func(i int, rng *rand.Rand) {
+	c.Cases("conc", c.Pick(500, 20000), func(i int, rng *rand.Rand) {
 		w, err := newWorld("unix", nil)
 		if err != nil {
 			c.Inconclusive("conc", i, "world: "+err.Error())
